@@ -62,6 +62,42 @@ func (w *World) Reconcilables() [][2]any {
 	return out
 }
 
+// lists reports whether the ObjectSet / phase object m names an object with key k.
+func (w *World) lists(owner Key, k Key) bool {
+	m := w.Store.Snapshot(owner)
+	if m == nil {
+		return false
+	}
+	spec := nestedMap(m, "spec")
+	has := func(objs []any) bool {
+		for _, o := range objs {
+			om, _ := o.(map[string]any)
+			obj, _ := om["object"].(map[string]any)
+			if obj == nil {
+				continue
+			}
+			if ok := KeyOf(&unstructured.Unstructured{Object: obj}, owner.NS); ok.Kind == k.Kind && ok.Name == k.Name {
+				return true
+			}
+		}
+		return false
+	}
+	switch owner.Kind {
+	case "ObjectSet", "ClusterObjectSet":
+		phs, _ := spec["phases"].([]any)
+		for _, ph := range phs {
+			pm, _ := ph.(map[string]any)
+			if objs, _ := pm["objects"].([]any); getStr(pm, "class") == "" && has(objs) {
+				return true
+			}
+		}
+	case "ObjectSetPhase", "ClusterObjectSetPhase":
+		objs, _ := spec["objects"].([]any)
+		return has(objs)
+	}
+	return false
+}
+
 // ListedKeys returns every object key named in any ObjectSet / phase / deployment template in the store,
 // with the unstructured desired object.
 func (w *World) ListedObjects() map[Key]*unstructured.Unstructured {
@@ -210,6 +246,24 @@ func (wk *walker) stepRandomPass() bool {
 			wk.w.EnvSetRevAnnotation(k, "9")
 		}
 	}
+	// the same window, used by Package Operator itself: the other controller (ObjectSet vs ObjectSetPhase controller
+	// run concurrently) reconciles a set that lists the very object between this pass's read and its delete
+	if wk.opts.Race && !wk.opts.PassAtomic && p.Pending != nil && p.Pending.verb == "Delete" && !p.Pending.dry &&
+		p.Pending.key.Group != pkoGroup && wk.rng.Intn(2) == 0 {
+		var cands [][2]any
+		for _, r := range wk.w.Reconcilables() {
+			if r[0].(string) != a && wk.flight[r[0].(string)] == nil && (r[0].(string) == "os" || r[0].(string) == "ph") &&
+				wk.w.lists(r[1].(Key), p.Pending.key) {
+				cands = append(cands, r)
+			}
+		}
+		if len(cands) > 0 {
+			c := cands[wk.rng.Intn(len(cands))]
+			q := wk.w.StartPass(c[0].(string), c[1].(Key))
+			for q.Pending != nil && !wk.w.Step(q, "") {
+			}
+		}
+	}
 	fault := ""
 	if wk.faults > 0 && wk.rng.Intn(12) == 0 {
 		wk.faults--
@@ -298,7 +352,7 @@ func (wk *walker) envAction() {
 			paused, _ := nestedMap(m, "spec")["paused"].(bool)
 			w.EnvSetPaused(d, !paused)
 		} else {
-			w.EnvSetTemplate(d, rng.Intn(3))
+			w.EnvSetTemplate(d, w.TemplateBase+rng.Intn(3))
 		}
 		return
 	}
@@ -731,6 +785,46 @@ func moreScenarios() []Scenario {
 		}},
 		{Name: "deploy", Setup: func(w *World) {
 			w.EnvCreate(NewObjectDeployment("d1", TemplateVariant(0)))
+		}},
+		{Name: "deploy-delegated", Setup: func(w *World) {
+			w.TemplateBase = 4
+			w.EnvCreate(NewObjectDeployment("d1", TemplateVariant(4)))
+		}},
+		{Name: "deploy-delegated-3rev", Setup: func(w *World) {
+			// revision 1 (w1 in a delegated phase) rolled out, revision 2 (no w1) rolled out and revision 1 archived
+			// - its teardown has not run yet -, revision 3 (w1 in a local phase) just created: the teardown of
+			// revision 1 (ObjectSetPhase controller) and the rollout of revision 3 (ObjectSet controller) meet at w1
+			w.TemplateBase = 4
+			w.EnvCreate(NewObjectDeployment("d1", TemplateVariant(4)))
+			round := func(n int) {
+				for i := 0; i < n; i++ {
+					w.RunPass("od", KOD("d1"))
+					for _, k := range w.CRKeys("ObjectSet") {
+						if getStr(nestedMap(w.Store.Snapshot(k), "spec"), "lifecycleState") != "Archived" {
+							w.RunPass("os", k)
+						}
+					}
+					for _, k := range w.CRKeys("ObjectSetPhase") {
+						w.RunPass("ph", k)
+					}
+					for k := range w.ListedObjects() {
+						if k.Kind == "Widget" && w.Store.Snapshot(k) != nil {
+							w.EnvSetWidgetStatus(k, "Ready")
+						}
+					}
+				}
+			}
+			round(4)
+			w.EnvSetTemplate(KOD("d1"), 6)
+			round(7)
+			w.EnvSetTemplate(KOD("d1"), 5)
+			w.RunPass("od", KOD("d1"))
+			// the teardown of revision 1 begins: its ObjectSetPhase object is deleted, the ObjectSetPhase controller's turn
+			for _, k := range w.CRKeys("ObjectSet") {
+				if getStr(nestedMap(w.Store.Snapshot(k), "spec"), "lifecycleState") == "Archived" {
+					w.RunPass("os", k)
+				}
+			}
 		}},
 		{Name: "deploy-limit1", Setup: func(w *World) {
 			od := NewObjectDeployment("d1", TemplateVariant(0))
